@@ -206,8 +206,8 @@ def stepC20 (d : DSt) (op : String) (got : String) : StepResult DSt :=
         { st := d2, expected := some s!"pre={preTxt} res={res} cb={fmtCb d2 cbs}",
           spec := crash ++ f1 ++ fails,
           cov := cov ++ (if preCbs.isEmpty then [] else ["timeout"]), nontrivial := nt }
-      match args with
-      | ["express", label, nameT, cbpT, lifeT] =>
+      -- Express of a given final name; `resOk` is what the harness prints on success
+      let doExpress (label nameT cbpT lifeT resOk : String) (covx : List String) : StepResult DSt :=
         match Name.ofText nameT, optNat lifeT with
         | some final, some life =>
           let cbp := cbpT == "1"
@@ -215,15 +215,15 @@ def stepC20 (d : DSt) (op : String) (got : String) : StepResult DSt :=
           match o with
           | .expressed id =>
             let (dig, node) := splitDigest final
-            let spInts := if gotRes == "ok" then
+            let spInts := if gotRes == resOk then
                 sp1.ints ++ [{ label := label, i := ⟨node, final, cbp, dig, t, life.getD defaultLife⟩ }]
               else sp1.ints
-            mk { d1 with m := m2, labels := d1.labels ++ [(id, label)], sp := { sp1 with ints := spInts } } "ok" [] []
-              ["express", if dig.isSome then "express-digest" else "express-plain", if cbp then "express-cbp" else "express-exact",
-               if life.isNone then "express-default-life" else "express-life"]
+            mk { d1 with m := m2, labels := d1.labels ++ [(id, label)], sp := { sp1 with ints := spInts } } resOk [] []
+              (["express", if dig.isSome then "express-digest" else "express-plain", if cbp then "express-cbp" else "express-exact",
+               if life.isNone then "express-default-life" else "express-life"] ++ covx)
           | _ => mk { d1 with m := m2 } "err" [] [] ["express-err"]
         | _, _ => bad d
-      | ["data", nameT, digT, _variant] =>
+      let doData (nameT digT resTxt : String) (covx : List String) : StepResult DSt :=
         match Name.ofText nameT, bytesOfHex digT with
         | some name, some dig =>
           let (m2, o) := stepM d.pinned m1 (.data name dig)
@@ -237,10 +237,10 @@ def stepC20 (d : DSt) (op : String) (got : String) : StepResult DSt :=
              s!"Data {nameT} satisfies pending {si.label} ({Name.toText si.i.final} cbp={si.i.cbp}) but its callback was not invoked"⟩
           let pend := sp1.ints.filter (!·.resolved)
           let nt := pend.any fun a => pend.any fun b => a.label != b.label && nested a.i.node b.i.node && nested a.i.node name
-          mk { d1 with m := m2, sp := sp2 } "ok" cbs (f2 ++ f3)
-            ["data", if cbs.isEmpty then "data-unsolicited" else if cbs.length ≥ 2 then "data-multi" else "data-one"] nt
+          mk { d1 with m := m2, sp := sp2 } resTxt cbs (f2 ++ f3)
+            (["data", if cbs.isEmpty then "data-unsolicited" else if cbs.length ≥ 2 then "data-multi" else "data-one"] ++ covx) nt
         | _, _ => bad d
-      | ["nack", nameT] =>
+      let doNack (nameT resTxt : String) (covx : List String) : StepResult DSt :=
         match Name.ofText nameT with
         | some name =>
           let (m2, o) := stepM d.pinned m1 (.nack name)
@@ -248,8 +248,45 @@ def stepC20 (d : DSt) (op : String) (got : String) : StepResult DSt :=
           let (sp2, f2) := if isCrash got then (sp1, []) else specCb sp1 gotCb none (some name)
           let pend := sp1.ints.filter (!·.resolved)
           let nt := pend.any fun a => pend.any fun b => a.label != b.label && nested a.i.node b.i.node && nested a.i.node name
-          mk { d1 with m := m2, sp := sp2 } "ok" cbs f2 ["nack", if cbs.isEmpty then "nack-unknown" else "nack-hit"] nt
+          mk { d1 with m := m2, sp := sp2 } resTxt cbs f2 (["nack", if cbs.isEmpty then "nack-unknown" else "nack-hit"] ++ covx) nt
         | none => bad d
+      -- the final name the model holds for an Interest expressed under this harness label
+      let finalOf (label : String) : Option Name :=
+        match d1.labels.find? (·.2 == label) with
+        | some (id, _) => (m1.exprs[id]?).map (·.final)
+        | none => none
+      let wrapCov (w : String) : List String :=
+        if w == "w1" then ["arrival-lp"] else if w == "w2" then ["arrival-lp-token"] else ["arrival-bare"]
+      match args with
+      | ["express", label, nameT, cbpT, lifeT] => doExpress label nameT cbpT lifeT "ok" []
+      | ["expressp", label, baseT, cbpT, lifeT, _plen, signer] =>
+        -- Interest with ApplicationParameters built by the real MakeInterest (signer none|sha|ecc|short): the
+        -- harness reports the name that went out ON THE WIRE; it must be <base>/<ParametersSha256Digest>
+        match Name.ofText baseT, (gotRes.drop 3).toString |> Name.ofText with
+        | some base, some wname =>
+          let okShape := gotRes.startsWith "ok:" && wname.length == base.length + 1 && wname.take base.length == base &&
+            (match wname.getLast? with | some c => c.typ == 2 && c.val.length == 32 | none => false)
+          if okShape then doExpress label (Name.toText wname) cbpT lifeT gotRes ["express-params", s!"express-params-{signer}"]
+          else mk d1 s!"ok:{baseT}/2:<32 bytes>" [] [] ["express-params-bad"]
+        | _, _ => mk d1 s!"ok:{baseT}/2:<32 bytes>" [] [] ["express-params-bad"]
+      | ["data", nameT, digT, _variant] => doData nameT digT "ok" (wrapCov "w0")
+      | ["data", nameT, digT, _variant, w] => doData nameT digT "ok" (wrapCov w)
+      | ["datafor", label, _variant, w] =>
+        -- Data named exactly like the Interest `label` was named on the wire; name and digest come from the harness
+        match finalOf label with
+        | none => mk d1 "skip" [] [] ["datafor-skip"]
+        | some fin =>
+          match gotRes.splitOn ":" with
+          | "ok" :: rest =>
+            let digT := rest.getLast?.getD ""
+            doData (Name.toText fin) digT s!"ok:{Name.toText fin}:{digT}" ("datafor" :: wrapCov w)
+          | _ => mk d1 s!"ok:{Name.toText fin}:<digest>" [] [] ["datafor-bad"]
+      | ["nack", nameT] => doNack nameT "ok" (wrapCov "w1")
+      | ["nack", nameT, w] => doNack nameT "ok" (wrapCov w)
+      | ["nackfor", label, w] =>
+        match finalOf label with
+        | none => mk d1 "skip" [] [] ["nackfor-skip"]
+        | some fin => doNack (Name.toText fin) s!"ok:{Name.toText fin}" ("nackfor" :: wrapCov w)
       | ["attach", hidT, prefT] =>
         match Name.ofText prefT, hidT.toNat? with
         | some p, some hid =>
